@@ -106,6 +106,46 @@ def apply_ops(structure, ops):
         elif k == "select":
             idx = set(op["residues"])
             s = rebuild(s, keep_res=lambda ri, r: ri in idx)
+        elif k == "icodes":
+            # runs of consecutive residues of one chain share a number and differ
+            # by insertion code only (47, 47A, 47B, ...): order-preserving
+            from rnapolis.common import ResidueAuth
+
+            rng = random.Random(op["seed"])
+            plan = {}
+            i = 0
+            res = s.residues
+            while i < len(res):
+                run = rng.choice([1, 1, 2, 3, 4]) if rng.random() < op.get("frac", 0.3) else 1
+                j = i
+                while j + 1 < len(res) and j + 1 - i < run and res[j + 1].chain == res[i].chain and res[j + 1].auth is not None and res[i].auth is not None and res[j + 1].model == res[i].model:
+                    j += 1
+                if j > i and (res[i].auth.icode in (None, " ", "?")):
+                    for t in range(i, j + 1):
+                        plan[t] = (res[i].auth.number, None if t == i else "ABCDE"[t - i - 1])
+                i = j + 1
+
+            def relabel(ri, r, plan=plan):
+                if ri in plan and r.auth is not None:
+                    num, ic = plan[ri]
+                    return r.label, ResidueAuth(r.auth.chain, num, ic, r.auth.name)
+                return r.label, r.auth
+
+            s = rebuild(s, relabel=relabel)
+        elif k == "reverse-res":
+            from rnapolis import tertiary
+
+            s = tertiary.Structure3D(list(reversed(s.residues)))
+        elif k == "chain-order":
+            from rnapolis import tertiary
+
+            chains = []
+            for r in s.residues:
+                if r.chain not in chains:
+                    chains.append(r.chain)
+            rng = random.Random(op["seed"])
+            order = sorted(chains, reverse=True) if op.get("mode") == "reverse" else rng.sample(chains, len(chains))
+            s = tertiary.Structure3D([r for c in order for r in s.residues if r.chain == c])
         elif k == "round":
             nd = op["decimals"]
             s = rebuild(s, coord_fn=lambda ri, p: np.round(p, nd))
